@@ -140,6 +140,12 @@ pub fn run(op: &str, a: &[&str]) -> Option<String> {
             let (x, y) = (unhex(a[0]), unhex(a[1]));
             boolstr(cryptoxide::chacha20poly1305::Tag(arr::<16>(&x)) == cryptoxide::chacha20poly1305::Tag(arr::<16>(&y)))
         }
+        "ct.tag.ne" => {
+            use cryptoxide::constant_time::CtEqual;
+            let (x, y) = (unhex(a[0]), unhex(a[1]));
+            let (tx, ty) = (cryptoxide::chacha20poly1305::Tag(arr::<16>(&x)), cryptoxide::chacha20poly1305::Tag(arr::<16>(&y)));
+            boolstr((&tx).ct_ne(&ty).is_true())
+        }
         _ => return None,
     })
 }
